@@ -498,6 +498,11 @@ def build(draw):
             H["Mk"] = [dict(ft, kw={"default_ns": d["default_ns"],
                                     "default_ew": d["default_ew"]})]
             pairs.append(("M", "Mk", "final"))
+            fc = dict(ft, cls="TRS.construct_trs")
+            H["Mc0"] = [mset, fc]
+            H["Mck"] = [dict(fc, kw={"default_ns": d["default_ns"],
+                                     "default_ew": d["default_ew"]})]
+            pairs.append(("Mc0", "Mck", "final"))
             if sigma:
                 H["M'"] = [mset, dict(ft, kw=dict(sigma))]
                 H["M'k"] = [dict(ft, kw=dict(eff))]
@@ -734,6 +739,10 @@ def run_history(ops):
                     tw = op["tw"]
                     subj = pytrs.TRS.from_twprgesec(tw[0], tw[1], tw[2],
                                                     **op["kw"])
+                elif c == "TRS.construct_trs":
+                    tw = op["tw"]
+                    subj = pytrs.TRS.construct_trs(tw[0], tw[1], tw[2],
+                                                   **op["kw"])
                 elif c == "find_twprge":
                     subj = pytrs.find_twprge(op["text"], **op["kw"])
                 elif c == "Config":
